@@ -29,6 +29,32 @@ def variants(rings=None, names=("c",)):
     return vs
 
 
+def deep_parents(depths):
+    """two chains of the given depth under one outermost state: one step between their leaves writes more step records
+    (exits, entries, searches) than any chart of the forest sweep - the per-step record buffer the trace reads from is finite"""
+    out = []
+    for d in depths:
+        par = [-1]
+        for chain in range(2):
+            par.append(0)
+            par += [len(par) - 1 + i for i in range(d - 1)]
+        out.append(tuple(par))
+    return out
+
+
+def gen_deep(parent):
+    n = len(parent)
+    d = (n - 1) // 2
+    la, lb = d, 2 * d           # the two leaves
+    # leaf to leaf and back; an ignored and an internally handled event in between append nothing
+    yield ({"parent": parent, "init": {}, "react": {(la, "A"): ("T", lb), (lb, "A"): ("T", la), (1, "B"): ("H",)},
+            "start": la, "events": ["B", "C", "A", "B", "A", "A"]}, True)
+    # transition declared on the outermost state, the target reached through a full init chain
+    init = {i: i + 1 for i in range(d + 1, 2 * d)}
+    yield ({"parent": parent, "init": init, "react": {(0, "A"): ("T", d + 1)},
+            "start": la, "events": ["A", "C", "A"]}, True)
+
+
 def run(tier):
     res = Result(PID)
     N, NA = (6, 4) if tier == "quick" else (7, 5)
@@ -46,6 +72,8 @@ def run(tier):
                            (instrcheck.gen_act, small, variants()[1:], "trace", None),
                            # trace ring of 2 records: the third step drops the start record
                            (c01.gen, tiny, variants((500, 2, 250)), "trace", None),
+                           # very deep charts: one step writes several hundred step records
+                           (gen_deep, deep_parents((8, 20, 30) if tier == "quick" else (8, 16, 20, 24, 30, 36)), variants(), "trace", None),
                            (instrcheck.gen_act, [f for f in tiny if len(f) <= 3], variants((500, 2, 250))[1:], "trace", None)])
     from mc.props import c20ao
     c20ao.run_into(res, tier)
